@@ -214,13 +214,33 @@ Definition giso (dstar dzero done : N) (g1 g2 : graph) : bool :=
   is_isomorphic (nm_sub [(1%N, dstar); (2%N, dzero)])
                 (fun h p => N.eqb (getd 4 done h) (getd 4 done p)) g1 g2.
 
+(** ---------- graph_morphism.graph_isomorphism(use_defaults=False): no matchers, structure only ---------- *)
+Definition any_attrs (h p : attrs) : bool := true.
+Definition giso0 (g1 g2 : graph) : bool := is_isomorphic any_attrs any_attrs g1 g2.
+
+(** ---------- graph_morphism.find_graph_isomorphism (both graphs nx.Graph): a mapping is returned (not None) ----------
+    fast_invariant_check: node count, edge count, sorted degree sequence; default matchers: categorical on
+    element (default "*"), atom_map (default 0), hcount (default 0; EQUALITY here, not >=) and order (default 1) *)
+Definition deg_label (g : graph) (u : N) : blabel := [Some (N.of_nat (length (nbrs g u)))].
+Definition degs (g : graph) : list blabel := sort_l (map (deg_label g) (node_ids g)).
+Definition fgi_fast (g1 g2 : graph) : bool :=
+  (n_nodes g1 =? n_nodes g2) && (n_edges g1 =? n_edges g2) && bll_eqb (degs g1) (degs g2).
+Definition fgi (use_defaults fast : bool) (dstar dzero done : N) (g1 g2 : graph) : bool :=
+  if fast && negb (fgi_fast g1 g2) then false
+  else if use_defaults
+       then is_isomorphic (nm_sub [(1%N, dstar); (5%N, dzero); (0%N, 0%N)])
+                          (fun h p => N.eqb (getd 4 done h) (getd 4 done p)) g1 g2
+       else giso0 g1 g2.
+
 (** ---------- histories ---------- *)
 Inductive query :=
 | QIso (e i j : nat)
 | QMaps (e host pattern : nat)
 | QPre (e host pattern : nat)
 | QSub (gm : bool) (child parent : nat) (use_filter induced : bool) (names : list (N * N)) (eattr : option N)
-| QGiso (i j : nat) (dstar dzero done : N).
+| QGiso (i j : nat) (dstar dzero done : N)
+| QGiso0 (i j : nat)
+| QFgi (i j : nat) (use_defaults fast : bool) (dstar dzero done : N).
 
 Definition gnth (gs : list graph) (i : nat) : graph := nth i gs (LG [] []).
 Definition enth (es : list engine) (i : nat) : engine := nth i es (Eng [] [] false None).
@@ -242,6 +262,8 @@ Definition step (gs : list graph) (es : list engine) (q : query) (c : cache) : t
       (L [tnat (length l); tset tmapping (if determined (enth es e) (gnth gs h) (gnth gs p) then l else [])], c')
   | QSub _ ch pa f ind names eattr => (tbool (sub_iso f ind names eattr (gnth gs ch) (gnth gs pa)), c)
   | QGiso i j a b d => (tbool (giso a b d (gnth gs i) (gnth gs j)), c)
+  | QGiso0 i j => (tbool (giso0 (gnth gs i) (gnth gs j)), c)
+  | QFgi i j ud fa a b d => (tbool (fgi ud fa a b d (gnth gs i) (gnth gs j)), c)
   end.
 
 Fixpoint run_from (gs : list graph) (es : list engine) (qs : list query) (c : cache) : list tok :=
@@ -256,6 +278,22 @@ Fixpoint end_cache (gs : list graph) (es : list engine) (qs : list query) (c : c
   | [] => c
   | q :: r => end_cache gs es r (snd (step gs es q c))
   end.
+
+(** histories in which the caller edits graph OBJECTS in place between queries: [HEdit i k] turns object i into the graph
+    value k of the case; the object keeps its identity, so its cache entries stay (and go stale, as the class documents) *)
+Inductive hstep := HQ (q : query) | HEdit (i k : nat).
+Fixpoint set_nth {X : Type} (l : list X) (i : nat) (x : X) : list X :=
+  match l, i with
+  | [], _ => []
+  | _ :: r, O => x :: r
+  | y :: r, S i' => y :: set_nth r i' x
+  end.
+Fixpoint run_hist (gs0 cur : list graph) (es : list engine) (hs : list hstep) (c : cache) : list tok * cache :=
+  match hs with
+  | [] => ([], c)
+  | HQ q :: r => let '(t, c') := step cur es q c in let '(ts, c'') := run_hist gs0 cur es r c' in (t :: ts, c'')
+  | HEdit i k :: r => run_hist gs0 (set_nth cur i (gnth gs0 k)) es r c
+  end.
 End WithVF2.
 
 Definition tblabel (b : blabel) : tok := tlist (topt tN) b.
@@ -266,3 +304,7 @@ Definition tcache (c : cache) : tok :=
 
 Definition run (gs : list graph) (es : list engine) (qs : list query) : tok :=
   L (run_from has_mono (monos_g true) gs es qs [] ++ [tcache (end_cache has_mono (monos_g true) gs es qs [])]).
+
+Definition run_h (gs0 : list graph) (nobj : nat) (es : list engine) (hs : list hstep) : tok :=
+  let r := run_hist has_mono (monos_g true) gs0 (firstn nobj gs0) es hs [] in
+  L (fst r ++ [tcache (snd r)]).
